@@ -178,6 +178,49 @@ def guarded_subtractions(F, fn):
     return res
 
 
+def guarded_indexings(F, fn):
+    """Blocks of `v[i]` (Index::index calls) that every path reaches only after having established i < v.len() by a comparison
+    of that index with the length of that collection (`(i < v.len()).then(|| v[i])`, `if i < v.len() { v[i] }`)."""
+    cache = F.__dict__.setdefault("_guarded_indexings", {})
+    if fn.key in cache:
+        return cache[fn.key]
+    res = set()
+    cand = [bb for bb in fn.reachable() if fn.term(bb)["k"] == "call" and re.search(r"ops::Index<usize>>::index$", M.call_name(fn.term(bb)))]
+    if cand:
+        try:
+            from .common import run_fn, LogModel, ordering_of
+            runner = fn
+            if fn.kind == "Closure":
+                # the guard of an access inside a closure is in the function the closure is written in
+                base_name = re.sub(r"(::\{closure#\d+\})+$", "", fn.name)
+                par = [f_ for f_ in F.fns.values() if f_.name == base_name and f_.kind != "Closure"]
+                runner = par[0] if par else fn
+            ex, paths = run_fn(runner, F, LogModel(), max_paths=3000)
+            seen = {}
+            for p in paths:
+                for e in p.events:
+                    if e[0] == "call" and e[1] in cand and len(e) > 7 and e[6] == fn.name and re.search(r"ops::Index<usize>>::index$", e[2]):
+                        v_ = ex.deref_val(p, e[7][0]) if e[7][0][0] == "ref" else e[7][0]
+                        i_ = e[7][1]
+                        coll = S_fstr(v_)
+
+                        def is_len(x, coll=coll):
+                            return x[0] == "app" and re.search(r"(^|::)len$", str(x[1])) is not None and len(x[2]) == 1 and S_fstr(x[2][0]).lstrip("&*") == coll.lstrip("&*")
+                        o = ordering_of(p.conds, lambda x, i_=i_: x == i_, is_len)
+                        seen.setdefault(e[1], []).append(o == {"L"})
+            if not ex.truncated:
+                res = {bb for bb, v in seen.items() if v and all(v)}
+        except Exception:
+            res = set()
+    cache[fn.key] = res
+    return res
+
+
+def S_fstr(v):
+    from . import symex as S_
+    return S_.fstr(v)
+
+
 def index_loop_sites(fn):
     """Panic sites discharged by the shape of a counting loop over a collection (symex.find_index_loops: `i` starts at 0,
     the body runs only under `i < v.len()`, `i += 1` once per iteration, v is not changed in the loop): `v[i]` is in bounds
@@ -225,6 +268,8 @@ def sites(fn):
     out = []
     guarded = guarded_subtractions(fn.facts, fn) if hasattr(fn, "facts") and fn.facts is not None else set()
     guarded = set(guarded) | index_loop_sites(fn)
+    if hasattr(fn, "facts") and fn.facts is not None:
+        guarded |= guarded_indexings(fn.facts, fn)
     for bb in sorted(fn.reachable()):
         if bb in guarded:
             continue
